@@ -2,8 +2,9 @@
 
 Theorems: coq/theories/Properties_C17.v (erasing events from the stream gives exactly the C05 stream for
 every configuration; read/diff specification for plain configurations with -t/-D; watch decisions = changes
-of the observed sequence (cpu; var under the exact guard, refuted without); refutations of the three
-defects found; the overlap guard of save_trigger_read).
+of the observed sequence (cpu; var under the exact guard, refuted without, proved for the repaired variant);
+bounded exhaustive stream specification for -W cpu; refutations of the three defects found; the overlap
+guard of save_trigger_read).
 Tie: the real libmcount driven in-process (harness/c/mc_harness.c) with interposed getrusage(),
 /proc/self/statm, perf group reads, sched_getcpu() and a watched global; read= triggers, -W cpu / -W var,
 -t / -D / filters; state after every hook (+ pending-event count, watch state) and the complete stream
@@ -40,6 +41,7 @@ VARIANT = {"fix_var": False, "fix_drop": False}
 KEY_ARGS = "read-diff-lost-with-args"
 KEY_VAR = "watch-var-copy-never-updated"
 KEY_DROP = "watch-event-survives-filtered-call"
+KEY_HEAP = "watch-item-heap-overflow"
 
 
 # ---------------------------------------------------------------- observations
@@ -144,10 +146,13 @@ def gen_case(rng, klass):
     if klass != "plain":
         wcpu = rng.random() < 0.7
         wvar = rng.random() < 0.6
+    pure_cpu = klass == "watch0" and rng.random() < 0.35      # -W cpu alone: the stream-level specification applies
+    if pure_cpu:
+        reads, wcpu, wvar = {}, True, False
     fo = F.gen_shape(rng, 6, rng.choice([3, 8, 16]), 5)
     durs = (2, 4, 5, 6, 9, 10, 11, 99, 100, 101)
     gaps = (2, 3, 5, 50)
-    if rng.random() < (0.25 if klass == "watch0" else 0.5):
+    if not pure_cpu and rng.random() < (0.25 if klass == "watch0" else 0.5):
         durs, gaps = (1,) + durs, (1,) + gaps           # 1 ns between two hooks: the +-1 ns rule collides
     if klass == "any" and rng.random() < 0.3:
         durs = (0,) + durs
@@ -166,7 +171,8 @@ def gen_case(rng, klass):
         o = step_obs(rng, o, wild)
         return {"k": c.k, "t0": c.t0, "t1": c.t1, "o0": o0, "o1": o, "kids": kids}
     xf = [walk(c) for c in fo]
-    case = {"klass": klass, "cfg": cfg, "reads": reads, "wcpu": wcpu, "wvar": wvar, "pmu": pmu, "xforest": xf}
+    case = {"klass": klass, "cfg": cfg, "reads": reads, "wcpu": wcpu, "wvar": wvar, "pmu": pmu, "xforest": xf,
+            "pure_cpu": pure_cpu}
     evs = xflatten(xf)
     if klass == "any" and rng.random() < 0.1:
         evs = evs[:rng.randrange(1, len(evs) + 1)]
@@ -187,6 +193,43 @@ def assign_times(rng, forest, durs, gaps, t0=1000):
         c.t1 = clock[0]
     for c in forest:
         go(c)
+
+
+def fixed_cases():
+    """hand-made boundary cases that every run includes (correspondence + generic checkers)"""
+    def ob(pf=10, cpu=0, var=0x5a5a0000):
+        o = obs0()
+        o["pf"] = [0, pf]
+        o["cpu"] = cpu
+        o["var"] = var
+        return o
+
+    def call(k, t0, t1, o0, o1, kids=()):
+        return {"k": k, "t0": t0, "t1": t1, "o0": o0, "o1": o1, "kids": list(kids)}
+    out = []
+    # zero-duration call with read= and the `trace` trigger: every event of the frame is written twice
+    xf = [call(0, 100, 100, ob(5), ob(9))]
+    out.append({"klass": "any", "cfg": {"shape": "pg", "trig": {0: {"trace": True}}, "pattern": "simple"},
+                "reads": {0: ["pf", "statm"]}, "wcpu": False, "wvar": False, "pmu": False, "xforest": xf})
+    # five nested entries, cpu and variable change at every hook: the queue of 4 fills before the first record
+    kids = ()
+    o = [ob(cpu=i % 3, var=0x5a5a0001 + i) for i in range(12)]
+    for d in range(5, 0, -1):
+        kids = (call(d, 1000 + 10 * d, 2000 - 10 * d, o[d], o[11 - d], kids),)
+    out.append({"klass": "any", "cfg": {"shape": "cyg", "trig": {}, "pattern": "simple"}, "reads": {1: ["pf"]},
+                "wcpu": True, "wvar": True, "pmu": False, "xforest": list(kids)})
+    # hooks 1 ns apart: the first event (+1 ns) and the next entry event (-1 ns) collide
+    xf = [call(0, 100, 200, ob(cpu=1), ob(cpu=4), [call(1, 101, 102, ob(cpu=2), ob(cpu=3))])]
+    out.append({"klass": "any", "cfg": {"shape": "pg", "trig": {}, "pattern": "simple"}, "reads": {},
+                "wcpu": True, "wvar": False, "pmu": False, "xforest": xf})
+    # a time-filtered child with read= inside a recorded parent, negative differences
+    xf = [call(0, 100, 300, ob(50), ob(7), [call(1, 110, 115, ob(40), ob(30)), call(1, 120, 220, ob(30), ob(20))])]
+    out.append({"klass": "plain", "cfg": {"shape": "pg", "trig": {}, "pattern": "regex", "threshold": 50},
+                "reads": {0: ["pf"], 1: ["pf", "cycle"]}, "wcpu": False, "wvar": False, "pmu": True, "xforest": xf})
+    for c in out:
+        c["evs"] = xflatten(c["xforest"])
+        c["complete"] = True
+    return out
 
 
 def xflatten(xf):
@@ -428,7 +471,7 @@ def inproc(ctx):
     h = mch.Harness(ctx)
     cases = []
     plan = [("plain", ctx.n(45, 700)), ("watch0", ctx.n(45, 700)), ("any", ctx.n(60, 1000))]
-    todo = [gen_case(rng, klass) for klass, n in plan for _ in range(n)]
+    todo = fixed_cases() + [gen_case(rng, klass) for klass, n in plan for _ in range(n)]
     run_all(h, todo)
     for case in todo:
         if True:
@@ -476,10 +519,13 @@ def threads(ctx):
         base["wvar"] = False
         base["wcpu"] = True
         base["cfg"].pop("max_stack", None)
+        for tr in base["cfg"]["trig"].values():      # mcount_enabled is one switch for the whole process, the model is
+            tr.pop("trace_on", None)                 # per thread: no trace_on/trace_off under interleaved threads
+            tr.pop("trace_off", None)
         per = [base]
         for _ in range(nth - 1):
             c = gen_case(rng, klass)
-            for k in ("cfg", "reads", "wcpu", "wvar", "pmu"):
+            for k in ("cfg", "reads", "wcpu", "wvar", "pmu", "pure_cpu"):
                 c[k] = base[k]
             per.append(c)
         cyg = base["cfg"].get("shape") == "cyg"
@@ -590,6 +636,9 @@ def evaluate(ctx, cases, name="c17_cases"):
             ("ok_watch_var %d [%s] r" % (c["evs"][0][3]["var"], "; ".join(str(e[3]["var"]) for e in c["evs"])))
             if c["wvar"] else "true")
         for i, c in wsp)
+    wss = [(i, c) for i, c in enumerate(cases) if c.get("pure_cpu") and c["complete"] and hook_gaps_ok(c["evs"])]
+    defs += "Definition wspeccases : list bool := [\n%s\n].\n" % ";\n".join(
+        "(let '(_, b, _, r) := nth %d cases d0 in list_eqb oitem_eqb r (wspec b))" % i for i, c in wss)
     T = "(xcfg * list xev * list xobs * list oitem)"
     res = coq.run_cases(ctx, name, PRE, with_shared(defs), [
         ("mismatch", "bad_indices (fun c : %s => let '(a, b, o, r) := c in agree_x a b o r) cases 0" % T),
@@ -601,6 +650,7 @@ def evaluate(ctx, cases, name="c17_cases"):
                   "(combine cases timchk) 0" % T),
         ("spec", "bad_indices (fun b : bool => b) speccases 0"),
         ("watch", "bad_indices (fun b : bool => b) watchcases 0"),
+        ("wspec", "bad_indices (fun b : bool => b) wspeccases 0"),
     ], timeout=1500)
     if res is None:
         return
@@ -623,7 +673,11 @@ def evaluate(ctx, cases, name="c17_cases"):
     for j in R["watch"][:2]:
         ctx.violation("C17: watch events are not exactly the changes of the observed cpu / variable values",
                       replay_obj(wsp[j][1]), True)
-    if R["mismatch"] and not (R["nested"] or R["adjacent"] or R["times"] or R["spec"] or R["watch"]):
+    ctx.extra["watch_stream_spec_checks"] = ctx.extra.get("watch_stream_spec_checks", 0) + len(wss)
+    for j in R["wspec"][:2]:
+        ctx.violation("C17: the stream with -W cpu differs from the hook-by-hook specification (event iff changed, "
+                      "stamp, position in front of the hook's record)", replay_obj(wss[j][1]), True)
+    if R["mismatch"] and not (R["nested"] or R["adjacent"] or R["times"] or R["spec"] or R["watch"] or R["wspec"]):
         c = cases[R["mismatch"][0]]
         ctx.violation("model and libmcount disagree on %d case(s); the C17 checkers accept every explored implementation "
                       "output" % len(R["mismatch"]),
@@ -723,6 +777,36 @@ def witnesses(ctx):
             (109, 4) in cpus or (119, 5) in cpus, {"mode": "witness", "script": script, "env": env})
 
 
+def witness_valgrind(ctx):
+    """thorough tier: the global -W var item is allocated without room for its data and with `inited` unset;
+    mcount_watch_update writes / compares past the block (memcheck on the real libmcount)"""
+    h = mch.Harness(ctx)
+    d = os.path.join(ctx.scratch, "c17vg")
+    os.makedirs(d, exist_ok=True)
+    e = {k: v for k, v in os.environ.items() if not k.startswith("UFTRACE_")}
+    e.update({"UFTRACE_DIR": d, "UFTRACE_BUFFER": str(4 << 20), "UFTRACE_WATCH": "var:verif_watched_var"})
+    script = "VAL var 3\nE 0 100\nVAL var 4\nE 1 110\nX 120\nX 200\nQUIT\n"
+    try:
+        p = subprocess.run(["timeout", "240", "valgrind", "-q", "--error-limit=no", h.exe], input=script, env=e,
+                           capture_output=True, text=True, timeout=300)
+    except (OSError, subprocess.TimeoutExpired) as ex:
+        ctx.log("valgrind witness skipped: %r" % (ex,))
+        return
+    for f in os.listdir(d):
+        if f.startswith("sid-"):
+            for g in glob.glob("/dev/shm/uftrace-%s-*" % f[4:20]):
+                try:
+                    os.unlink(g)
+                except OSError:
+                    pass
+    bad = [l for l in p.stderr.splitlines() if "mcount_watch_update" in l]
+    ctx.case(key=("witness", KEY_HEAP), tags=["known:" + KEY_HEAP], sample={"memcheck_lines": bad[:3]})
+    finding(ctx, KEY_HEAP, "-W var:NAME with an 8-byte variable: mcount_watch_init allocates the global watch item with "
+            "xmalloc(sizeof(*w)) - no room for data[], `inited` uninitialised; mcount_watch_update then reads an uninitialised "
+            "flag and writes/compares 4 bytes past the heap block (memcheck)", bool(bad),
+            {"mode": "witness", "script": script, "env": {"UFTRACE_WATCH": "var:verif_watched_var"}, "memcheck": bad[:6]})
+
+
 def F_height(xf):
     def h(c):
         return 1 + max([h(k) for k in c["kids"]] or [0])
@@ -748,7 +832,10 @@ def meta(ctx):
         "asynchronous (SDT) events, scripts and the finish/recover triggers are outside the model",
         "argument / return-value capture on a function that also has a read= trigger is outside the stream model (the "
         "overlap guard reads uninitialised memory there: buffer-level model + dedicated witness)",
-        "one thread per case for -W var (the global watch item is shared between threads)",
+        "one thread per case for -W var (the global watch item is shared between threads); no trace_on/trace_off under "
+        "interleaved threads (mcount_enabled is one switch for the whole process, the model is per thread)",
+        "stream-level placement of watch events is a theorem only on the bounded domain of C17_watch_stream_small; "
+        "elsewhere it is tied by correspondence and the times / watch checkers",
         "perf counters and /proc/self/statm are replaced by interposed sources; the kernel interfaces themselves are not exercised",
     ]
 
@@ -760,6 +847,8 @@ def run(ctx):
     witnesses(ctx)          # first: they also tell which variant of the two repaired decision points the code has
     inproc(ctx)
     threads(ctx)
+    if ctx.thorough():
+        witness_valgrind(ctx)
 
 
 def replay(ctx, obj):
